@@ -30,12 +30,21 @@ def jobs(tier):
                    defines=["-DFPREC=3", "-DDPREC=5", "-DVERIF_BUILTIN_MEM", "-DSAVE_OWN_NAME"], unwind=26, shim=False, kind="bounded",
                    canary=False, functions=["vnacal_save (file name handling)"],
                    bound="the same table, saved under vnacal_get_filename(vcp)", timeout=900, cbmc_flags=["--no-leak"]))
+    # property trees in the file: the exporter writes every map key in the quoted form the importer's descriptor
+    # parser needs (job of C13, re-run under this id)
+    import C13
+    for j in C13.jobs("quick"):
+        if j.name == "export_keys":
+            j.name = "properties." + j.name
+            j.canary = False
+            j.imported = True
+            J.append(j)
     return J
 
 
 ASSUME = [
     "sprintf by assumed contract: exact worst-case output length of the formats %d, %.*e, %+a %+aj, %+.*e %+.*ej (3-digit exponent, sign) and the destination must hold it",
-    "libyaml (yaml_document_add_scalar) by recording stub; everything else about the round trip (libyaml, property trees, legacy versions, bit-exactness) is OUTSIDE contract verification and not decided: a defect there is not detected",
+    "libyaml (yaml_document_add_scalar) by recording stub; of the property trees only the key-quoting contract between exporter and importer is decided (properties.export_keys); everything else about the round trip (libyaml itself, the loader, legacy versions, bit-exactness) is OUTSIDE contract verification and not decided: a defect there is not detected",
     "the precisions accepted are those of the DFCC contracts on vnacal_set_fprecision/dprecision (C11): every int >= 1",
 ]
 ASSUME.append("save_frame: libyaml's document and emitter functions are a recording model (the document is the tree of the add/append calls and is written as such), "
